@@ -232,6 +232,11 @@ def step (q : Quirks) (toks : List String) (impl : String) : Res :=
     let m := render out
     { model := m, implView := viewFor m impl, monitor := monitors impl,
       tags := ["val", "val-" ++ netS, "val-" ++ (shape.splitOn ":").headD "", "val=" ++ classTag impl], nontrivial := key.length > 1 }
+  | "utpbody" =>
+    -- a really served uTP stream: the honest and the over-framed body give a value, the raw body where a version-1 frame is
+    -- expected fails to decode after a complete read - an error, never a panic
+    let m := if kv toks "kind" == "raw_for_v1" then "err" else "ok"
+    { model := m, monitor := monitors impl, tags := ["utpbody", kv toks "kind", "utpbody=" ++ classTag impl], nontrivial := true }
   | "trav" =>
     match nodeOf (kv toks "node") with
     | none => { model := "unparsed-node", tags := ["trav", "trav-unparsed"], nontrivial := false }
